@@ -6,8 +6,9 @@
    ChecksBeforeWrites, every faulty scenario is rejected, the fault-free one is accepted.
 2. S->C: every scenario is executed on the real backward / mtl_backward with its concrete argument
    lists; if the call raises, the .grad of EVERY leaf must be what it was (values, same tensor
-   object, same memory).  A faulty scenario that is NOT rejected, or a fault-free one that is, is a
-   disagreement between model and code: DRIFT (the statement only constrains rejected calls).
+   object, same memory).  A faulty scenario that is NOT rejected is a violation as well (the fault
+   kinds are the reasons for refusal the statement enumerates: Rejection!FaultyIsRejected); a
+   fault-free one that is rejected is a disagreement between model and code: DRIFT.
 3. C->S: random programs (generators of C01/C02) with a randomly injected fault at a random
    position are executed, logged and validated by TLC (TraceRejection).
 """
